@@ -85,6 +85,12 @@ def open_circuit_impedance(network: Network, node1: str, node2: str, node_index_
         return 0
     if network.is_zero_node(node1):
         node1, node2 = node2, node1
+    def isolated(node: str, ground: str) -> bool:
+        referenced = trf.switch_ground_node(network=network, new_ground=ground)
+        column = node_index_mapper(referenced)[node]
+        return not nodal_analysis_coefficient_matrix(referenced, node_mapper=node_index_mapper)[:, column].any()
+    if isolated(node1, node2) or isolated(node2, node1):
+        return np.inf
     network = trf.switch_ground_node(network=network, new_ground=node2)
     A = nodal_analysis_coefficient_matrix(network, node_mapper=node_index_mapper)
     keep = A.any(axis=0)
